@@ -158,11 +158,11 @@ Proof.
   intros HE. induction is as [|[n merge] rest IH]; intros base my.
   - rewrite imports_go_nil. omono_tac.
   - rewrite imports_go_cons. apply omono_bind; [apply omono_imps_get|]. intros [i|].
-    + destruct (is_evaluating i); [|apply IH]. apply omono_bind; [apply omono_err|intros _; apply IH].
+    + destruct (is_evaluating i); [|destruct (is_value i); apply IH]. apply omono_bind; [apply omono_err|intros _; apply IH].
     + apply omono_bind; [apply omono_call|]. intros failed. apply omono_bind; [apply omono_emit|intros _].
       destruct (if failed then LoadFail else match alookup n (w_envs W) with Some l => l | None => LoadFail end).
-      * apply omono_bind; [apply omono_err|intros _; apply IH].
-      * apply omono_bind; [apply omono_err|intros _; apply IH].
+      * apply omono_bind; [apply omono_err|intros _]. apply omono_bind; [apply omono_imps_set|intros _; apply IH].
+      * apply omono_bind; [apply omono_err|intros _]. apply omono_bind; [apply omono_imps_set|intros _; apply IH].
       * apply omono_bind; [apply HE|]. intros v. apply omono_bind; [apply omono_imps_set|intros _; apply IH].
 Qed.
 
